@@ -21,11 +21,12 @@ EXPLANATION = (
     "random_state reaches .sample(), and the whole object is returned exactly when no option was requested (never "
     "because the requested counts merely add up to len(object)); (R4) rows selected twice are "
     "de-duplicated by position - de-duplication by index label (index.duplicated) or by row value (.unique() / "
-    "drop_duplicates) removes legitimately distinct rows. NOT decided: verdict equality with the explicitly subsampled "
+    "drop_duplicates) removes legitimately distinct rows. (R5) the concatenation of several selections goes through a de-duplication step (rows selected by both head and tail are validated once) and nothing re-orders the subsample (no sort_index / sort after the concat). " 
+    "NOT decided: verdict equality with the explicitly subsampled "
     "frame on data."
 )
 LEVEL_RULE = "one obligation per pipeline row / subsample branch / return"
-FLOORS = {"R1": 14, "R2": 5, "R3": 10, "R4": 2}
+FLOORS = {"R1": 14, "R2": 5, "R3": 10, "R4": 2, "R5": 4}
 
 OPTS = ["head", "tail", "sample", "random_state"]
 
@@ -239,8 +240,14 @@ def r4_dedup(ctx):
     ix = ctx.ix
     for q in ("pandera/backends/pandas/base.py::PandasSchemaBackend.subsample", "pandera/backends/polars/base.py::PolarsSchemaBackend.subsample"):
         f = ix.func(q)
-        label = [n for n in ast.walk(f.node) if isinstance(n, ast.Call) and callee_last(n) == "duplicated" and "index" in txt(n.func)]
-        value = [n for n in ast.walk(f.node) if isinstance(n, ast.Call) and callee_last(n) in ("unique", "drop_duplicates")]
+        scope_nodes = list(ast.walk(f.node))
+        for x in list(scope_nodes):
+            if isinstance(x, ast.Name) and isinstance(x.ctx, ast.Load):
+                h = f.nested.get(x.id) or f.module.functions.get(x.id)
+                if h is not None and h is not f and x.id.startswith("_"):
+                    scope_nodes += list(ast.walk(h.node))   # a private helper referenced by name (`.pipe(_helper)`)
+        label = [n for n in scope_nodes if isinstance(n, ast.Call) and callee_last(n) == "duplicated" and "index" in txt(n.func)]
+        value = [n for n in scope_nodes if isinstance(n, ast.Call) and callee_last(n) in ("unique", "drop_duplicates")]
         bad = label or value
         how = "index label" if label else "row value"
         how_all = sorted(({"index label"} if label else set()) | ({"row value"} if value else set()))
@@ -250,9 +257,54 @@ def r4_dedup(ctx):
                "subsample, so invalid rows among them are never checked", f.loc((label or value)[0]) if bad else "")
 
 
+REORDERING = {"sort_index", "sort_values", "sort", "reindex", "shuffle", "reverse"}
+DEDUP = {"duplicated", "unique", "drop_duplicates", "is_duplicated", "is_unique", "is_first_distinct", "unique_counts"}
+
+
+def r5_each_row_once_in_order(ctx):
+    """The rows selected by head / tail / sample are validated once each and in the order they have in the object:
+    (a) the concatenation of several selections goes through some de-duplication step (otherwise a row selected by both
+    head and tail is validated twice and a uniqueness check fails on distinct data); (b) nothing re-orders the result
+    (`sort_index()` puts a newest-first series in ascending order: order-sensitive checks see different data than with
+    head=len(D), and mixed-type labels raise TypeError)."""
+    ix = ctx.ix
+    from ..util import Expander
+    for q in ("pandera/backends/pandas/base.py::PandasSchemaBackend.subsample", "pandera/backends/polars/base.py::PolarsSchemaBackend.subsample"):
+        f = ix.func(q)
+        ctx.touched(f)
+        ex = Expander(f.node)
+        rets = [r.value for r in walk_no_nested(f.node) if isinstance(r, ast.Return) and r.value is not None]
+        concat_rets = []
+        for r in rets:
+            nodes = [x for d in ex.closure(r) for x in ast.walk(d)]
+            # helpers referenced by name (`.pipe(_drop_duplicated_index)`) belong to the expression
+            for x in list(nodes):
+                if isinstance(x, ast.Name) and isinstance(x.ctx, ast.Load):
+                    h = f.nested.get(x.id) or f.module.functions.get(x.id)
+                    if h is not None and h is not f:
+                        nodes += list(ast.walk(h.node))
+            if any(isinstance(x, ast.Call) and callee_last(x) == "concat" for x in nodes):
+                concat_rets.append((r, nodes))
+        if not concat_rets:
+            raise AnalysisError(f"{f.short}: no concatenation of the selections found")
+        for r, nodes in concat_rets:
+            # lambdas handed to .pipe(...) are part of the expression
+            dedup = [x for x in nodes if isinstance(x, ast.Call) and callee_last(x) in DEDUP]
+            ctx.ob("R5", f, f"{f.short}: overlapping selections are validated once", bool(dedup),
+                   f"`{txt(dedup[0])[:50]}` removes the rows selected twice" if dedup else
+                   f"`{txt(r)[:60]}` concatenates the selections without any de-duplication: with head + tail > len(D) the overlapping rows occur twice "
+                   "and unique / aggregate checks fail on data whose rows are all distinct", f.loc(r))
+            reord = [x for x in nodes if isinstance(x, ast.Call) and callee_last(x) in REORDERING]
+            ctx.ob("R5", f, f"{f.short}: the subsample keeps the order of the object", not reord,
+                   "no re-ordering step" if not reord else
+                   f"`{txt(reord[0])[-40:]}` re-orders the selected rows: checks that depend on row order (and head=len(D) vs no option) see a different "
+                   "object; labels that are not mutually comparable raise TypeError instead of a verdict", f.loc(reord[0]) if reord else None)
+
+
 def run(ctx):
     r1_stages(ctx)
     r2_return(ctx)
     r3_subsample(ctx)
     r4_dedup(ctx)
+    r5_each_row_once_in_order(ctx)
     ctx.assume("head()/tail()/sample() of pandas and polars select rows by position")
